@@ -1,4 +1,4 @@
-FIX_COMMITS = ['056fe00 (C14)', '194b898 (C18)', 'e5d1f9f (C05 sweep tie-break)', 'c0a262c (C10)', '7c606c6 (C20)']
+FIX_COMMITS = ['056fe00 (C14)', '194b898 (C18)', 'e5d1f9f (C05 sweep tie-break)', 'c0a262c (C10)', '7c606c6 (C20)', 'cbc693c (C05/C06 BP-OSD)', 'a832f8b (C06 XCube)', 'a7ca295 (C05 MBP)']
 CHECKS = {
  'C14': dict(category='proof',
    text='For all (n_nodes, n_cores, n_inputs, trials, job_idx) - no bound - the body of run_parallel is executed symbolically and 10 '
@@ -77,5 +77,14 @@ CHECKS['C20'] = dict(category='other',
         '(H, logicals, index order, decoder menu, /decode vs the library decoder) goes through the Flask test client on bounded sizes.',
    note='Assumed: main.js offers the rotated picture for every code (text scan). Class-specific overrides of *_representation and Flask/json are exercised only by the bounded layer.',
    technique='symbolic execution of stabilizer_type + cover queries; table lookup; Flask test client as run-time contract')
+CHECKS['C06'] = dict(category='other',
+   text='decode() of all nine decoder classes, together with every repository function it reaches, is analysed by an ownership-and-dependence abstract interpretation of the '
+        'real AST: 45 frame/dependence obligations - no in-place write to the caller\'s syndrome, none to cached tables, no syndrome-dependent value stored in any field, third-party '
+        'decoder objects have their channel probabilities overwritten before use, the returned correction does not read unspecified state of third-party objects and depends only on '
+        'allowed sources - plus frame clauses for the four noise-model functions. These are decided for every path and every array content, without a solver. History-independence '
+        'itself is exercised on real objects (reused vs fresh decoder over syndrome histories, byte-wise comparison of arguments and cached tables) as bounded layer.',
+   note='Assumed: numpy view/copy rules; third-party decode() returns a function of (matrix, current priors, syndrome) and does not modify its arguments; unknown calls do not write their '
+        'arguments. UnionFind Support objects and decoders held in containers are not followed by the analysis (bounded only). Level "other": decided statically, not by an SMT proof.',
+   technique='frame (assigns) and dependence obligations by abstract interpretation over the AST; reused-vs-fresh decoder run-time contract')
 _PENDING = 'check under construction in this session (contract-based check planned in DESIGN.md section 3); not claimed until its command exists'
 NOT_APPLICABLE = {p: _PENDING for p in ['C%02d' % i for i in range(1, 21)]}
